@@ -60,7 +60,7 @@ func tryB(f func()) *hx.PanicInfo {
 
 func TestMain(m *testing.M) {
 	R.Require("ber_mixed_forms", "signed_ber_mixed_forms", "wrapped_key_c3_altered", "recipients>1", "gcm", "descbc", "c1c2c3", "c1c3c2", "rsa_recipient", "non_recipient", "wrong_key", "sm2_signed_attrs", "sm2_signed_noattrs", "rsa_signed_library", "detached",
-		"mut:content", "mut:attr", "mut:digest_attr", "mut:signature", "mut:other_key_cert", "p12_pwd_nonascii", "p12_wrong_pwd", "p12_corrupt", "p12_cacerts", "p12_long_pwd", "signers>1", "p12_mac_removed_then_modified", "p12_key_y_ends_in_01..08", "rsa_signer_form:0", "rsa_signer_form:1", "rsa_signer_form:2", "rsa_signer_form:3")
+		"mut:content", "mut:attr", "mut:digest_attr", "mut:signature", "mut:other_key_cert", "p12_pwd_nonascii", "p12_wrong_pwd", "p12_corrupt", "p12_cacerts", "p12_long_pwd", "signers>1", "p12_mac_removed_then_modified", "p12_key_y_ends_in_01..08", "signers_with_different_digests", "rsa_signer_form:0", "rsa_signer_form:1", "rsa_signer_form:2", "rsa_signer_form:3")
 	hx.Main(m, R)
 }
 
@@ -606,6 +606,7 @@ type sdSpec struct {
 	withAttrs  bool
 	extra      []byte
 	signerKey  interface{} // *gen.Key or *rsa.PrivateKey
+	second     bool        // a second, RSA, signer (rsaKeys[2]) whose digest algorithm differs from the first signer's
 	rsaForm    int         // RSA signers: 0 SHA-1 + sha1WithRSAEncryption, 1 SHA-1 + rsaEncryption, 2 SHA-256 + sha256WithRSAEncryption, 3 SHA-256 + rsaEncryption (the usual CMS form)
 	cert       *gx.Certificate
 	// mutations applied after signing
@@ -715,12 +716,42 @@ func buildSigned(t *rapid.T, s *sdSpec, otherCert *gx.Certificate, otherKey inte
 	if s.withAttrs {
 		si.Attrs = asn1.RawValue{Class: 2, Tag: 0, IsCompound: true, Bytes: attrContent}
 	}
+	digAlgs, signers, certBytes := []algID{digAlg}, []hSignerInfo{si}, append([]byte{}, cert.Raw...)
+	if s.second {
+		// the other digest family than the first signer's: SHA-256 next to SM3 / SHA-1, SHA-1 next to SHA-256
+		form2 := 3
+		if !s.sm2 && s.rsaForm >= 2 {
+			form2 = 1
+		}
+		s2 := &sdSpec{rsaForm: form2}
+		dig2, sig2 := algID{Algorithm: oidSHA256}, algID{Algorithm: oidRSAEnc}
+		hid := crypto.SHA256
+		if form2 == 1 {
+			dig2, hid = algID{Algorithm: oidSHA1}, crypto.SHA1
+		}
+		toSign2 := s.content
+		var attr2 []byte
+		if s.withAttrs {
+			attr2 = encodeAttrs([]attrKV{{oidCT, oidData}, {oidMD, hashOf(s2, s.content)}})
+			toSign2 = derSet(attr2)
+		}
+		sg, err := rsa.SignPKCS1v15(rand.Reader, rsaKeys[2], hid, hashOf(s2, toSign2))
+		if err != nil {
+			t.Fatalf("%v", err)
+		}
+		c2 := rsaCerts[2]
+		si2 := hSignerInfo{Version: 1, IAS: hIssuerSerial{Issuer: asn1.RawValue{FullBytes: c2.RawIssuer}, Serial: c2.SerialNumber}, DigestAlg: dig2, SigAlg: sig2, Sig: sg}
+		if s.withAttrs {
+			si2.Attrs = asn1.RawValue{Class: 2, Tag: 0, IsCompound: true, Bytes: attr2}
+		}
+		digAlgs, signers, certBytes = append(digAlgs, dig2), append(signers, si2), append(certBytes, c2.Raw...)
+	}
 	ci := hContentInfo{ContentType: oidData}
 	if !s.detached {
 		oct, _ := asn1.Marshal(content)
 		ci.Content = asn1.RawValue{Class: 2, Tag: 0, IsCompound: true, Bytes: oct}
 	}
-	sd := hSignedData{Version: 1, DigestAlgs: []algID{digAlg}, CI: ci, Certs: asn1.RawValue{Class: 2, Tag: 0, IsCompound: true, Bytes: cert.Raw}, Signers: []hSignerInfo{si}}
+	sd := hSignedData{Version: 1, DigestAlgs: digAlgs, CI: ci, Certs: asn1.RawValue{Class: 2, Tag: 0, IsCompound: true, Bytes: certBytes}, Signers: signers}
 	inner, err := asn1.Marshal(sd)
 	if err != nil {
 		t.Fatalf("marshal signedData: %v", err)
@@ -783,6 +814,11 @@ func TestC17_Signed(t *testing.T) {
 			if err != nil {
 				t.Fatalf("%v", err)
 			}
+		}
+		if gen.OneIn(t, "secondSigner", 4) {
+			// two signers whose digest algorithms differ (SM3 or SHA-1 next to SHA-256, SHA-256 next to SHA-1)
+			s.second = true
+			R.Class("signers_with_different_digests")
 		}
 		muts := []string{"", "", "content", "signature", "other_key_sig", "other_key_cert"}
 		if s.sm2 {
